@@ -130,7 +130,9 @@ def discharge_all(run, obs, timeout_ms=20000, procs=None, on_sat=None):
     # flip a verdict): the few that are left run again under three other random seeds, at most four at a time; `unknown` stays
     # undecided, never a violation
     again = [k for k in todo if res[k][0] == "unknown" and not obs[k].expect_sat]
-    if again and not os.environ.get("VERIF_NO_RETRY"):
+    # (only when FEW are open: a handful of time-outs is what a loaded machine produces; dozens mean the code under contract changed and
+    #  the solver is genuinely stuck - repeating them all would cost half an hour and decide nothing more)
+    if again and len(again) <= 8 and not os.environ.get("VERIF_NO_RETRY"):
         jobs2 = [(obs[k].smt2, timeout_ms, True) for k in again]
         # always in child processes: the seed is a global parameter
         out2 = _pool_map(_solve_portfolio, jobs2, 4, 1, timeout_ms / 1000 * 4 + 240)
